@@ -89,6 +89,49 @@ fn check_addr(a: SocketAddr, tid: u128, other: u128, deep: bool, st: &mut Stats)
         z.addr(t),
         a
     );
+    // the public helper that performs the XOR on its own (documented: "the XOR of the addr with the
+    // transaction and the hardcoded XOR constant"): equal to the RFC layout, and an involution
+    let xa = guard(|| XorSocketAddr::xor_addr(a, t)).map_err(|p| Fail::new("c13-panic", p))?;
+    let want_port = u16::from_be_bytes([want[2], want[3]]);
+    let want_ip: IpAddr = if a.is_ipv4() {
+        IpAddr::V4(Ipv4Addr::new(want[4], want[5], want[6], want[7]))
+    } else {
+        let mut o = [0u8; 16];
+        o.copy_from_slice(&want[4..20]);
+        IpAddr::V6(o.into())
+    };
+    ensure!(
+        xa.ip() == want_ip && xa.port() == want_port,
+        "c13-wire",
+        "XorSocketAddr::xor_addr({}, {:#x}) = {}, RFC 8489 s14.2 gives {} port {}",
+        a,
+        tid,
+        xa,
+        want_ip,
+        want_port
+    );
+    let back = guard(|| XorSocketAddr::xor_addr(xa, t)).map_err(|p| Fail::new("c13-panic", p))?;
+    ensure!(
+        back.ip() == a.ip() && back.port() == a.port(),
+        "c13-roundtrip",
+        "XorSocketAddr::xor_addr applied twice to {} under {:#x} gives {}",
+        a,
+        tid,
+        back
+    );
+    let xs = guard(|| XorSocketAddr::new(a, t)).map_err(|p| Fail::new("c13-panic", p))?;
+    let xs_raw = xs.to_raw(AttributeType::new(0x0020));
+    ensure!(
+        *xs_raw.value == want[..],
+        "c13-wire",
+        "XorSocketAddr::new({}, {:#x}).to_raw() carries {}, RFC 8489 s14.2 gives {}",
+        a,
+        tid,
+        hex(&xs_raw.value),
+        hex(&want)
+    );
+    let xs2 = XorSocketAddr::from_raw(&xs_raw).map_err(|e| Fail::new("c13-roundtrip", format!("XorSocketAddr::from_raw of its own to_raw failed: {:?}", e)))?;
+    ensure!(*xs2.to_raw(AttributeType::new(0x0020)).value == want[..], "c13-roundtrip", "XorSocketAddr of {} under {:#x} does not survive to_raw/from_raw", a, tid);
     if (other & TID_MASK) != (tid & TID_MASK) {
         let o = TransactionId::from(other);
         if a.is_ipv6() {
